@@ -27,7 +27,7 @@ STUBS = [
     'static routes serve harness/static_fixture (one 5-byte file)',
 ]
 OUTSIDE = ['custom routers', 'resources with non-standard method maps', 'paths outside the menu except the symbolic sink tails']
-BUDGET = {'quick': 300, 'thorough': 900}
+BUDGET = {'quick': 420, 'thorough': 900}
 
 FIXTURE = os.path.join(os.path.dirname(os.path.abspath(__file__)), 'static_fixture')
 ALL_METHODS = ['GET', 'POST', 'DELETE', 'PUT', 'PATCH', 'HEAD', 'OPTIONS', 'CONNECT', 'TRACE', 'CHECKIN', 'REPORT', 'BREW', 'WEBSOCKET']
@@ -256,7 +256,7 @@ def partitions(tier, seed):
         hist = hist + [(2, 3, 4, 6), (6, 2, 3, 4), (0, 1, 2, 6), (5, 8, 2, 3)]
     for i, h in enumerate(hist):
         for asgi in ((i % 2,) if q else (0, 1)):
-            P.append(_tpart(asgi, h, 150 if q else 600))
+            P.append(_tpart(asgi, h, 240 if q else 600))
     for i, h in enumerate([(5, 8), (8, 5), (5, 2), (2, 5, 6)]):
         for asgi in ((i % 2,) if q else (0, 1)):
             src = '''
